@@ -206,10 +206,10 @@ Lemma mirror_ge_stop L x y : ge_stop (mirror L x) (mirror L y) = le_start x y.
 Proof. unfold ge_stop, le_start, mirror. cbn [lstop]. lia. Qed.
 Lemma mirror_le_start L x y : le_start (mirror L x) (mirror L y) = ge_stop x y.
 Proof. unfold ge_stop, le_start, mirror. cbn [lstart]. lia. Qed.
-Lemma mirror_invol L l : (ldefect l < 256)%N -> mirror L (mirror L l) = l.
+Lemma mirror_invol L l : mirror L (mirror L l) = l.
 Proof.
-  intros H. destruct l as [x y s d m]. unfold mirror. cbn [lstart lstop lstrand ldefect lmeta] in *.
-  rewrite strand_reverse_invol, (defect_reverse_invol d H). f_equal; lia.
+  destruct l as [x y s d m]. unfold mirror. cbn [lstart lstop lstrand ldefect lmeta] in *.
+  rewrite strand_reverse_invol, (defect_reverse_invol_all d). f_equal; lia.
 Qed.
 Lemma mirror_spec_loc L l :
   lstart (mirror L l) = L - lstop l /\ lstop (mirror L l) = L - lstart l /\
@@ -300,11 +300,8 @@ Proof.
   - eapply Forall_impl; [|exact A']. intros y Hy. unfold le_start_ge_stop in Hy. unfold le_start. lia.
 Qed.
 
-Lemma map_mirror_invol L t : defects_ok t = true -> map (mirror L) (map (mirror L) t) = t.
-Proof.
-  intros H. rewrite map_map. rewrite <- (map_id t) at 2. apply map_ext_in. intros l Hl.
-  unfold defects_ok in H. rewrite forallb_forall in H. specialize (H l Hl). apply mirror_invol. apply N.ltb_lt. exact H.
-Qed.
+Lemma map_mirror_invol L t : map (mirror L) (map (mirror L) t) = t.
+Proof. rewrite map_map. rewrite <- (map_id t) at 2. apply map_ext. intros l. apply mirror_invol. Qed.
 Lemma spec_rc_hd_strand L t : inv_locs t = true -> hd_strand (spec_rc_locs L t) = strand_reverse (hd_strand t).
 Proof.
   intros H. destruct (inv_locs_head _ H) as (l0 & r & Et & Hs). apply inv_s_parts in Hs. destruct Hs as (_ & H2 & _).
@@ -316,10 +313,10 @@ Proof.
   - inversion F; subst. assumption.
 Qed.
 (* mirroring twice: exact for stranded features, and for unstranded ones in the tie_ok region *)
-Lemma spec_rc_invol L t : inv_locs t = true -> defects_ok t = true -> tie_ok t = true ->
+Lemma spec_rc_invol L t : inv_locs t = true -> tie_ok t = true ->
   spec_rc_locs L (spec_rc_locs L t) = t.
 Proof.
-  intros H D T. destruct (inv_locs_head _ H) as (l0 & r & Et & Hs).
+  intros H T. destruct (inv_locs_head _ H) as (l0 & r & Et & Hs).
   pose proof (inv_s_parts _ _ Hs) as (_ & _ & H3).
   unfold spec_rc_locs at 1. rewrite (spec_rc_hd_strand L t H), strand_reverse_invol.
   assert (Hd : hd_strand t = lstrand l0) by (rewrite Et; reflexivity). rewrite Hd.
@@ -328,20 +325,20 @@ Proof.
   destruct (byte_eqb (lstrand l0) cPlus) eqn:EP.
   - apply byte_eqb_eq in EP. rewrite EP in *. replace (byte_eqb cPlus cMinus) with false in * by reflexivity.
     rewrite (sort_map ge_stop le_start (mirror L)) by apply mirror_le_start.
-    rewrite (map_mirror_invol L t D). rewrite !(sort_id le_start t H3). reflexivity.
+    rewrite (map_mirror_invol L t). rewrite !(sort_id le_start t H3). reflexivity.
   - destruct (byte_eqb (lstrand l0) cMinus) eqn:EM.
     + rewrite (sort_map le_start ge_stop (mirror L)) by apply mirror_ge_stop.
-      rewrite (map_mirror_invol L t D). rewrite !(sort_id ge_stop t H3). reflexivity.
+      rewrite (map_mirror_invol L t). rewrite !(sort_id ge_stop t H3). reflexivity.
     + cbn [orb] in T.
       rewrite (sort_map le_start ge_stop (mirror L)) by apply mirror_ge_stop.
-      rewrite (map_mirror_invol L t D). apply double_sort_lex. exact T.
+      rewrite (map_mirror_invol L t). apply double_sort_lex. exact T.
 Qed.
-Lemma feature_rc_invol L f g : wf_ft f = true -> defects_ok (flocs f) = true -> tie_ok (flocs f) = true ->
+Lemma feature_rc_invol L f g : wf_ft f = true -> tie_ok (flocs f) = true ->
   feature_rc L f = Some g -> feature_rc L g = Some f.
 Proof.
-  intros Hwf D T E. destruct (feature_rc_exact L f Hwf) as [E1 W1]. rewrite E1 in E. inversion E; subst g.
+  intros Hwf T E. destruct (feature_rc_exact L f Hwf) as [E1 W1]. rewrite E1 in E. inversion E; subst g.
   destruct (feature_rc_exact L _ W1) as [E2 _]. rewrite E2. unfold spec_rc_ft. cbn [flocs fmeta].
-  rewrite (spec_rc_invol L _ Hwf D T). destruct f; reflexivity.
+  rewrite (spec_rc_invol L _ Hwf T). destruct f; reflexivity.
 Qed.
 
 (* ------------------------------------------------------------------ FeatureList.rc *)
@@ -353,11 +350,11 @@ Proof.
   - apply forallb_forall. intros g Hg. apply in_map_iff in Hg. destruct Hg as (f & <- & Hf).
     apply feature_rc_exact. apply H. exact Hf.
 Qed.
-Definition rc_safe (f : feature) : bool := defects_ok (flocs f) && tie_ok (flocs f).
+Definition rc_safe (f : feature) : bool := tie_ok (flocs f).
 Lemma spec_rc_ft_invol L f : wf_ft f = true -> rc_safe f = true -> spec_rc_ft L (spec_rc_ft L f) = f.
 Proof.
-  intros Hwf S. unfold rc_safe in S. apply andb_prop in S. destruct S as [D T].
-  unfold spec_rc_ft. cbn [flocs fmeta]. rewrite (spec_rc_invol L _ Hwf D T). destruct f; reflexivity.
+  intros Hwf T. unfold rc_safe in T.
+  unfold spec_rc_ft. cbn [flocs fmeta]. rewrite (spec_rc_invol L _ Hwf T). destruct f; reflexivity.
 Qed.
 Lemma fts_rc_invol L fts g : wf_fts fts = true -> forallb rc_safe fts = true ->
   fts_rc L fts = Some g -> fts_rc L g = Some fts.
@@ -371,10 +368,10 @@ Qed.
 (* ------------------------------------------------------------------ refutations of the two excluded regions *)
 Definition tie_witness : feature := mkFt [mkLoc 0 1 S_NONE 0 0; mkLoc 0 2 S_NONE 0 0] 0.
 Lemma mirror_involutive_refuted :
-  wf_ft tie_witness = true /\ defects_ok (flocs tie_witness) = true /\ tie_ok (flocs tie_witness) = false /\
+  wf_ft tie_witness = true /\ tie_ok (flocs tie_witness) = false /\
   exists g h, feature_rc 10 tie_witness = Some g /\ feature_rc 10 g = Some h /\ h <> tie_witness.
 Proof.
-  split; [reflexivity|]. split; [reflexivity|]. split; [reflexivity|].
+  split; [reflexivity|]. split; [reflexivity|].
   eexists. eexists. split; [vm_compute; reflexivity|]. split; [vm_compute; reflexivity|]. discriminate.
 Qed.
 (* ------------------------------------------------------------------ the invariant over operation histories *)
@@ -439,13 +436,17 @@ Proof.
 Qed.
 Lemma apply_op_wf o st st' : Forall WF st -> apply_op o st = Some st' -> Forall WF st'.
 Proof.
-  intros Hst. destruct o as [a b r|L|i L|i raws]; cbn [apply_op].
+  intros Hst. destruct o as [a b r|L|i L|i raws|i j|a b r mut|i j]; cbn [apply_op];
+    [| | | | |intros H; inversion H; subst; exact Hst|intros H; inversion H; subst; exact Hst].
   - unfold slice. apply fts_slice_wf.
   - unfold fts_rc. intros H. eapply all_some_Forall; [|exact H]. intros x y. apply feature_rc_wf.
   - apply update_nth_Forall; [|exact Hst]. intros x y. apply feature_rc_wf.
   - destruct (all_some (map mk_raw raws)) as [ls|] eqn:E; [|discriminate].
     apply update_nth_Forall; [|exact Hst]. intros x y. apply set_locs_wf.
     eapply all_some_Forall; [|exact E]. apply mk_raw_ok.
+  - destruct (nth_error st j) as [fj|] eqn:E; [|intros H; inversion H; subst; exact Hst].
+    apply update_nth_Forall; [|exact Hst]. intros x y. apply set_locs_wf. apply inv_locs_ok.
+    rewrite Forall_forall in Hst. apply (Hst fj). eapply nth_error_In. exact E.
 Qed.
 Lemma run_ops_wf ops st ok st' : Forall WF st -> snd (run_ops ops st ok) = Some st' -> Forall WF st'.
 Proof.
@@ -527,8 +528,7 @@ Lemma mirror_loc L l : loc_ok l = true ->
   loc_reverse L l = Some (mirror L l) /\
   lstart (mirror L l) = L - lstop l /\ lstop (mirror L l) = L - lstart l /\
   lstrand (mirror L l) = strand_reverse (lstrand l) /\ ldefect (mirror L l) = defect_reverse (ldefect l) /\
-  lmeta (mirror L l) = lmeta l /\
-  ((ldefect l < 256)%N -> mirror L (mirror L l) = l).
+  lmeta (mirror L l) = lmeta l /\ mirror L (mirror L l) = l.
 Proof. intros H. split; [apply loc_reverse_mirror; exact H|]. repeat split. apply mirror_invol. Qed.
 Lemma loctuple_constructor ls t : Forall (fun l => loc_ok l = true) ls -> mk_loctuple ls = Some t ->
   Permutation ls t /\ inv_locs t = true /\ mk_loctuple t = Some t.
@@ -650,10 +650,15 @@ Qed.
 Lemma apply_op_total o st : wf_fts st = true -> op_ok o st = true ->
   match o with OSetLocs _ _ => True | _ => apply_op o st <> None end.
 Proof.
-  intros W K. destruct o as [a b r|L|i L|i raws]; [| | |exact I]; cbn [apply_op].
+  intros W K. destruct o as [a b r|L|i L|i raws|i j|a b r mut|i j]; [| | |exact I| |discriminate|discriminate]; cbn [apply_op].
   - unfold slice. rewrite fts_slice_exact; [discriminate|exact W].
   - destruct (fts_rc_exact L st W) as [E _]. rewrite E. discriminate.
   - apply (update_nth_total (fun f => wf_ft f = true)).
     + intros f Hf. destruct (feature_rc_exact L f Hf) as [E _]. rewrite E. discriminate.
     + apply Forall_forall. apply forallb_forall. exact W.
+  - destruct (nth_error st j) as [fj|] eqn:E; [|discriminate].
+    assert (Wj : wf_ft fj = true).
+    { unfold wf_fts in W. rewrite forallb_forall in W. apply W. eapply nth_error_In. exact E. }
+    apply (update_nth_total (fun _ => True)); [|apply Forall_forall; intros; exact I].
+    intros f _. unfold set_locs. rewrite (mk_loctuple_id _ Wj). discriminate.
 Qed.
